@@ -257,7 +257,7 @@ func main() {
 		r.Finish()
 	}
 	if r.Fork(16) {
-		r.Set("rule", fmt.Sprintf("every list of up to 3 directives with pairwise disjoint handle lists, and lists that repeat a handle within a directive or across directives (these must be rejected or recorded as written) (1-2 handles each, drawn in every order from %d handles: string and named terminals, rule handles with alternation, groups, optional, star, trailing and empty alternatives), every assignment of @left/@right/@none, interleaved with the other declarations at every position (complete for <= 2 directives), with and without the optional semicolons; non-trivial = accepted specification; distinct by text", len(handlePool)))
+		r.Set("rule", fmt.Sprintf("every list of up to 3 directives with pairwise disjoint handle lists, and lists that repeat a handle within a directive or across directives (these must be rejected or recorded as written) (1-2 handles each, drawn in every order from %d handles: string and named terminals, rule handles with alternation, groups, optional, star, trailing and empty alternatives), every assignment of @left/@right/@none, interleaved with the other declarations at every position (complete for <= 2 directives), with and without the optional semicolons; lists of 4 ... 100 directives in five arrangements; non-trivial = accepted specification; distinct by text", len(handlePool)))
 		r.Set("evaluations", r.Get("specs"))
 		r.Finish()
 	}
@@ -399,6 +399,66 @@ func main() {
 					}
 				}
 			}
+		}
+	}
+	// long directive lists: n levels (one string terminal each, a rule handle every fifth), associativities cycling, in the
+	// five arrangements: all first, all last, alternating with the other declarations, two per line, without semicolons
+	lines := strings.Split(strings.TrimSpace(prelude), "\n")
+	for _, nd := range []int{4, 5, 8, 10, 16, 17, 32, 33, 64, 65, 100} {
+		var ds []string
+		for i := 0; i < nd; i++ {
+			h := fmt.Sprintf(`"t%d"`, i)
+			if i%5 == 4 {
+				h = fmt.Sprintf(`< e = "u%d" e >`, i)
+			}
+			ds = append(ds, assocs[i%3]+" "+h)
+		}
+		for arr := 0; arr < 5; arr++ {
+			count++
+			if !r.MineIdx(count) || r.Expired() {
+				continue
+			}
+			var b strings.Builder
+			b.WriteString("grammar g ;\n")
+			switch arr {
+			case 0:
+				b.WriteString(strings.Join(ds, " ;\n") + " ;\n" + prelude)
+			case 1:
+				b.WriteString(prelude + strings.Join(ds, " ;\n") + " ;\n")
+			case 2:
+				for i, d := range ds {
+					b.WriteString(d + " ;\n" + lines[i%len(lines)] + "\n")
+				}
+				for _, l := range lines[min(len(ds), len(lines)):] {
+					b.WriteString(l + "\n")
+				}
+			case 3:
+				for i := 0; i < len(ds); i += 2 {
+					b.WriteString(ds[i] + " ; ")
+					if i+1 < len(ds) {
+						b.WriteString(ds[i+1] + " ;")
+					}
+					b.WriteString("\n")
+				}
+				b.WriteString(prelude)
+			case 4:
+				b.WriteString(strings.Join(ds, "\n") + "\n" + prelude)
+			}
+			text := b.String()
+			if arr == 2 && nd > len(lines) {
+				// the prelude lines must not repeat: alternate only as long as they last
+				var c strings.Builder
+				c.WriteString("grammar g ;\n")
+				for i, d := range ds {
+					c.WriteString(d + " ;\n")
+					if i < len(lines) {
+						c.WriteString(lines[i] + "\n")
+					}
+				}
+				text = c.String()
+			}
+			checkText(r, text)
+			r.Add("specs_long_directive_lists", 1)
 		}
 	}
 	r.Assume("a rule written as a handle is an occurrence of that rule (its alternatives are productions of the grammar); bounded languages compared up to length 4")
